@@ -299,12 +299,21 @@ def a6(cx):
     # growth amounts
     grows = [c for s in post for c in ast.walk(s) if isinstance(c, ast.Call) and isinstance(c.func, ast.Attribute) and c.func.attr == "grow"]
     need = Poly.atom("size") + Poly.atom("alignment") - Poly.const(1)
+    amounts = []  # (amount expression, conditions it is chosen under, node)
     for g in grows:
         cx.need(len(g.args) == 1, "grow call with unexpected arguments")
-        p = lin.poly(g.args[0])
+        a0 = g.args[0]
+        defs = d.defs_of(a0.id) if isinstance(a0, ast.Name) else []
+        if len(defs) > 1 and all(v is not None for v, _ in defs):
+            # one growth call fed by a local chosen in several branches: each choice is an amount of its own
+            for v, st in defs:
+                amounts.append((v, fl.conds_at(st), st))
+        else:
+            amounts.append((a0, fl.conds_at(g), g))
+    for aexpr, conds, g in amounts:
+        p = lin.poly(aexpr) if not isinstance(aexpr, ast.Name) or len(d.defs_of(aexpr.id)) <= 1 else Lin().poly(aexpr)
         txt = repr(p)
         if p == Poly.atom("self.capacity") or p == Poly.atom("self.grow_step"):
-            conds = fl.conds_at(g)
             if p == Poly.atom("self.grow_step"):
                 ok = any(norm(c.test) == "self.grow_step is not None" and c.pol or norm(c.test) == "self.grow_step is None" and not c.pol for c in conds)
                 cx.check(ok, g, detail="grow_step used only when set", bad_detail="grow(self.grow_step) reachable with grow_step None", sub="amount")
@@ -846,6 +855,11 @@ def f4(cx):
         st = got.get(attr)
         cx.need(st is not None, f"Chunk.merge does not assign self.{attr}")
         v = st.value
+        if not (isinstance(v, ast.Call) and call_name(v) in ("min", "max")):
+            # another way of taking the union (e.g. conditional assignments): decided by rule FM, which evaluates
+            # merge/overlaps on every order type instead of recognising their shape
+            cx.note(st, construct=f"Chunk.merge: self.{attr} is not assigned a min/max call", detail="decided by rule FM")
+            continue
         ok = isinstance(v, ast.Call) and call_name(v) == fn and {norm(a) for a in v.args} == {f"self.{attr}", f"{mg.args.args[1].arg}.{attr}"}
         cx.check(ok, st, detail=f"merged {attr} is the {fn} of both", bad_detail=f"merged {attr} is not {fn}(self.{attr}, other.{attr})", sub="F-4.merge")
     sz = m.func("context::Chunk.size")
@@ -864,7 +878,10 @@ def f4(cx):
             tv = norm(g.target)
             elt_ok = norm(a.elt) in (f"{tv}.size", f"{tv}.end - {tv}.start")
             ok = elt_ok and _is_self_chunks(g.iter) and not g.ifs
-    cx.check(ok, r[0], detail="free total is the sum of the sizes of all free chunks", bad_detail="get_free is not sum(ch.size for ch in self.chunks)", sub="F-5.get_free")
+    if not ok and not (isinstance(v, ast.Call) and call_name(v) == "sum"):
+        cx.note(r[0], construct="get_free is not written as sum(...)", detail="accounting decided by rule FM (get_free grows by the freed size on every order type)")
+    else:
+        cx.check(ok, r[0], detail="free total is the sum of the sizes of all free chunks", bad_detail="get_free is not sum(ch.size for ch in self.chunks)", sub="F-5.get_free")
 
 
 @rule("NB", ["C04", "C13"], "_new_buffer(capacity) yields exactly `capacity` bytes in every buffer kind")
